@@ -667,3 +667,27 @@ pub fn sts_op(c: &Case, req: Request<Bytes>) -> String {
         Ok(hx(&a.get_string_to_sign()))
     })
 }
+
+/// Debug renderings of the intermediate public values of a validation (unstable API): the canonical
+/// request, the extracted parameters, the authenticator.
+pub fn debug_views(c: &Case, req: Request<Bytes>) -> Vec<String> {
+    let opts = SignatureOptions { s3: c.s3, url_encode_form: c.fold };
+    let r = catch_unwind(AssertUnwindSafe(|| {
+        let mut out = Vec::new();
+        let (parts, body) = req.into_parts();
+        if let Ok((creq, _p, _b)) = CanonicalRequest::from_request_parts(parts, body, opts) {
+            out.push(format!("{:?}", creq));
+            out.push(format!("{:#?}", creq));
+            let reqs = scratchstack_aws_signature::NO_ADDITIONAL_SIGNED_HEADERS;
+            if let Ok(ap) = creq.get_auth_parameters(&reqs) {
+                out.push(format!("{:?}", ap));
+            }
+            if let Ok(a) = creq.get_authenticator(&reqs) {
+                out.push(format!("{:?}", a));
+                out.push(format!("{:#?}", a));
+            }
+        }
+        out
+    }));
+    r.unwrap_or_default()
+}
